@@ -176,7 +176,7 @@ class Ctx:
             with Lock("build_" + PTAG):
                 os.makedirs(COQ, exist_ok=True)
                 rc, out = sh(["rsync", "-a", "--delete", os.path.join(VERIF, "coq") + "/", COQ + "/"])
-                if rc != 0:
+                if rc not in (0, 24):  # 24 = a file vanished during the copy (another run's temp file)
                     raise RuntimeError("rsync of coq/ failed: " + out)
 
     # ---------------------------------------------------------------- utilities
@@ -473,7 +473,7 @@ class Ctx:
                 listed[k] = d
         stale = [k for k in self.known if k not in listed]
         lines, rc = [], 0
-        stamp = "%s-%s-%d" % (self.pid, self.tier, int(self.t0))
+        stamp = "%s-%s-%d-%d%s" % (self.pid, self.tier, int(self.t0), os.getpid(), ("-" + PTAG) if PRIVATE else "")
         if unlisted:
             rc = 1
             seen = set()
@@ -519,9 +519,12 @@ class Ctx:
             "wall_s": round(time.time() - self.t0, 2),
             "violations": len(set(k for k, _, _ in unlisted)) + (1 if (self.brokens and not unlisted) else 0),
         }
-        tmp = os.path.join(VERIF, "evidence", self.pid + ".json.tmp")
+        # evidence/ holds only runs against /repo itself; private (mutation) runs write elsewhere
+        evdir = os.path.join(BUILD, "evidence_" + PTAG) if PRIVATE else os.path.join(VERIF, "evidence")
+        os.makedirs(evdir, exist_ok=True)
+        tmp = os.path.join(evdir, self.pid + ".json.tmp")
         json.dump(ev, open(tmp, "w"), indent=1, default=str)
-        os.replace(tmp, os.path.join(VERIF, "evidence", self.pid + ".json"))
+        os.replace(tmp, os.path.join(evdir, self.pid + ".json"))
         for l in lines:
             print(l, flush=True)
         print("[%s] %s obligations=%d/%d evaluations=%d known=%d wall=%.1fs" % (
